@@ -627,6 +627,7 @@ class Machine(object):
             if not self.noaccel:
                 return None
             env["VSIM_BUILD_DIR"] = self.noaccel
+            env["PYCRYPTODOME_DISABLE_GMP"] = "1"      # no GMP and no _modexp: Numbers falls back to the pure-Python integers
             cfg = {"aesni": True, "clmul": False}
         env["VSIM_REPLICA_CFG"] = json.dumps(cfg)
         s = subprocess.Popen([PYTHON, "-m", "vsim.replica"], cwd=VERIF_DIR, env=env, stdin=subprocess.PIPE, stdout=subprocess.PIPE,
@@ -728,6 +729,7 @@ class Machine(object):
                             "operands stay inside each method's evident mathematical domain apart from the four named precondition violations",
                             "the two modular square roots are equally acceptable: only r*r mod p and the range are compared"],
             "expected_probes": ["precondition_no-inverse", "precondition_zero-modulus", "precondition_negative-exponent", "precondition_non-residue",
-                                "precondition_negative-sqrt"],
+                                "precondition_negative-sqrt", "proc_replica_default=IntegerGMP", "proc_replica_custom=IntegerCustom",
+                                "proc_replica_native=IntegerNative"],
             "not_reached": ["32-bit limbs (multiply_32.c is never compiled here)"],
         }
